@@ -7,7 +7,8 @@ from . import xrun, acc, contracts as C
 
 
 def nows(s):
-    return re.sub(r"\s+", "", s or "")
+    """type/text comparison key: no white space, and `arbitrary_int::uN` is the same type as `uN`"""
+    return re.sub(r"\s+", "", s or "").replace("::arbitrary_int::", "").replace("arbitrary_int::", "")
 
 
 def impl_fns(inv):
@@ -50,23 +51,23 @@ def access_obligations(s: Struct, inv):
         else:
             ok = g is None
             obs.append((f"{base}/getter-absent", ok, None if ok else f"a getter `{f.name}` is emitted for a field without read access"))
-        w, st = main.get(f"with_{f.name}"), main.get(f"set_{f.name}")
+        w, st = main.get(f"with_{f.base}"), main.get(f"set_{f.base}")
         if f.writable:
             npar = 2 if f.array else 1
             okw = w is not None and w["vis"] == "pub" and nows(w["recv"] or "") == "&self" and len(w["params"]) == npar \
                 and nows(w["params"][-1]["ty"]) == nows(f.ty.setter_ty()) and nows(w["ret"]) in ("Self", s.name)
             oks = st is not None and st["vis"] == "pub" and nows(st["recv"] or "") == "&mutself" and len(st["params"]) == npar \
                 and nows(st["params"][-1]["ty"]) == nows(f.ty.setter_ty())
-            obs.append((f"{base}/with-present", okw, None if okw else f"with_{f.name} missing or wrong signature: {w}"))
-            obs.append((f"{base}/set-present", oks, None if oks else f"set_{f.name} missing or wrong signature: {st}"))
+            obs.append((f"{base}/with-present", okw, None if okw else f"with_{f.base} missing or wrong signature: {w}"))
+            obs.append((f"{base}/set-present", oks, None if oks else f"set_{f.base} missing or wrong signature: {st}"))
             if s.builder_expected():
-                okb = f"with_{f.name}" in partial_with
-                obs.append((f"{base}/builder-step-present", okb, None if okb else f"the writable field {f.name} has no builder step (no impl of the builder type offers with_{f.name})"))
+                okb = f"with_{f.base}" in partial_with
+                obs.append((f"{base}/builder-step-present", okb, None if okb else f"the writable field {f.name} has no builder step (no impl of the builder type offers with_{f.base})"))
         else:
-            obs.append((f"{base}/with-absent", w is None, None if w is None else f"with_{f.name} is emitted for a field without write access"))
-            obs.append((f"{base}/set-absent", st is None, None if st is None else f"set_{f.name} is emitted for a field without write access"))
-            ok = f"with_{f.name}" not in partial_with
-            obs.append((f"{base}/builder-step-absent", ok, None if ok else f"a builder step with_{f.name} is emitted for a field without write access"))
+            obs.append((f"{base}/with-absent", w is None, None if w is None else f"with_{f.base} is emitted for a field without write access"))
+            obs.append((f"{base}/set-absent", st is None, None if st is None else f"set_{f.base} is emitted for a field without write access"))
+            ok = f"with_{f.base}" not in partial_with
+            obs.append((f"{base}/builder-step-absent", ok, None if ok else f"a builder step with_{f.base} is emitted for a field without write access"))
     # anything following the accessor naming scheme of an UNDECLARED field is merely listed, never an alarm
     return obs
 
@@ -111,7 +112,7 @@ def builder_obligations(s: Struct, inv):
     chain = s.mask_chain()
     expected_types = {}
     for f, m0, m1 in chain:
-        expected_types.setdefault(f"{s.pname}<{m0}>", {})[f"with_{f.name}"] = f"{s.pname}<{m1}>"
+        expected_types.setdefault(f"{s.pname}<{m0}>", {})[f"with_{f.base}"] = f"{s.pname}<{m1}>"
     final = chain[-1][2] if chain else 0
     expected_types.setdefault(f"{s.pname}<{final}>", {})["build"] = s.name
     for ty, d in sorted(expected_types.items()):
@@ -173,8 +174,8 @@ def access_use_programs(p: Program):
             idxo = "0" if f.array else ""
             uses = {
                 "getter": (f.readable, f"let _ = s.{f.name}({idxo});"),
-                "with": (f.writable, f"let _ = s.with_{f.name}({idx}{value_expr(f.ty)});"),
-                "set": (f.writable, f"let mut m = s; m.set_{f.name}({idx}{value_expr(f.ty)});"),
+                "with": (f.writable, f"let _ = s.with_{f.base}({idx}{value_expr(f.ty)});"),
+                "set": (f.writable, f"let mut m = s; m.set_{f.base}({idx}{value_expr(f.ty)});"),
             }
             for kind, (granted, stmt) in uses.items():
                 if granted:
@@ -210,7 +211,7 @@ def builder_use_programs(p: Program):
             out.append(UseProg(f"{p.pid}nb{S}", p, f"pub fn use_() {{ let _ = {S}::builder(); }}", False, f"{S}::builder() must not exist"))
             continue
         chain = s.mask_chain()
-        steps = [f".with_{f.name}({arg_expr(f)})" for f, _, _ in chain]
+        steps = [f".with_{f.base}({arg_expr(f)})" for f, _, _ in chain]
         out.append(UseProg(f"{p.pid}pb{S}", p, f"pub const BUILT_: {S} = {S}::builder(){''.join(steps)}.build();", True,
                            f"{S}: the complete chain in declaration order type-checks in const context"))
         k = 0
